@@ -828,15 +828,16 @@ HN_CONSTS = {"NEvents": "3", "Kinds": tla_set(["fast", "block", "reenter", "clos
 STREAMS = ["cs", "cand", "pair"]
 
 
-def hn_stream(work, binary, verdict, stats, stream, recs, walks, seed, init_of, edges):
-    """Replay planned paths (+ unguided walks) on one stream of the real notifier; validate; judge; coverage."""
-    tag = "hn_" + stream
+def hn_stream(work, binary, verdict, stats, stream, recs, walks, seed, init_of, edges, alias=False):
+    """Replay planned paths (+ unguided walks) on one stream of the real notifier; validate; judge; coverage.
+    alias: events 1 and 3 carry the same value (A, B, A) - still three events."""
+    tag = "hn_" + stream + ("_alias" if alias else "")
     pf = work.path(tag + ".paths.jsonl")
     with open(pf, "w") as f:
         for r in recs:
             f.write(json.dumps(r) + "\n")
     trace = work.path(tag + ".ndjson")
-    job = dict(stream=stream, nevents=3, paths=pf, walks=walks, walkLen=80, seed=seed, out=trace, stats=work.path(tag + ".stats.json"))
+    job = dict(stream=stream, nevents=3, paths=pf, walks=walks, walkLen=80, seed=seed, out=trace, stats=work.path(tag + ".stats.json"), alias=alias)
     jp = work.path(tag + ".job.json")
     json.dump(job, open(jp, "w"))
     rc, out, _ = drive(binary, "TestNotifier", jp, "notifier replay " + stream, tolerate_failure=True)
@@ -851,7 +852,7 @@ def hn_stream(work, binary, verdict, stats, stream, recs, walks, seed, init_of, 
         sys.stderr.write(out[-3000:])
         raise v.Inconclusive("notifier driver failed without a judged violation (%s, rc %d)" % (stream, rc))
     cov, off = walk_coverage(init_of, edges, lines)
-    return dict(stream=stream, st=st, lines=lines, mon=r, viols=viols, val=rv, cov=cov, trace=trace)
+    return dict(stream=stream, alias=alias, st=st, lines=lines, mon=r, viols=viols, val=rv, cov=cov, trace=trace)
 
 
 def hn_account(verdict, stats, res):
@@ -867,11 +868,11 @@ def hn_account(verdict, stats, res):
     for pred, line in res["viols"]:
         idx = line - 1
         start, seg = segment(lines, idx)
-        feat = {"predicate": pred, "ev": lines[idx].get("ev"), "stream": res["stream"], "kind": ",".join(seg[0].get("kind", [])),
+        feat = {"predicate": pred, "ev": lines[idx].get("ev"), "stream": res["stream"], "repeated_value": bool(res.get("alias")), "kind": ",".join(seg[0].get("kind", [])),
                 "graceful": seg[0].get("graceful"), "trace": start, "step": idx - start}
 
         def writer(path, seg=seg, pred=pred):
-            json.dump({"property": "C11", "family": FAMILY, "kind": "notifier", "predicate": pred, "stream": res["stream"],
+            json.dump({"property": "C11", "family": FAMILY, "kind": "notifier", "predicate": pred, "stream": res["stream"], "alias": res.get("alias", False),
                        "handler_kinds": seg[0].get("kind"), "graceful": seg[0].get("graceful"),
                        "labels": [event_label(x) for x in seg[1:] if x["ev"] not in ("Drain", "Unknown")], "events": seg}, open(path, "w"))
         report(verdict, stats, feat, writer)
@@ -958,8 +959,12 @@ def c11(tier, seed):
             return node_of.get((tuple(e.get("kind", [])), bool(e.get("graceful"))))
         t0 = time.time()
         walks = n_(tier, 600, 10000)
-        results = par(*[(lambda s=s: hn_stream(work, binary, verdict, stats, s, per_stream[s], walks, seed * 10 + i, init_of, edges))
-                        for i, s in enumerate(STREAMS)])
+        results = par(*([(lambda s=s: hn_stream(work, binary, verdict, stats, s, per_stream[s], walks, seed * 10 + i, init_of, edges))
+                         for i, s in enumerate(STREAMS)] +
+                        # the same paths once more per stream with a repeated value (state / candidate / pair object) among the events
+                        [(lambda s=s: hn_stream(work, binary, verdict, stats, s, per_stream[s] or per_stream[max(per_stream, key=lambda k: len(per_stream[k]))],
+                                                walks // 3, seed * 10 + 5 + i, init_of, edges, alias=True))
+                         for i, s in enumerate(STREAMS)]))
         covered = set()
         per = {}
         for res in results:
@@ -1073,7 +1078,7 @@ def replay(rp):
         elif kind == "notifier":
             binary = v.build_harness(work, pkg=FAMILY)
             recs = [{"kind": rp["handler_kinds"], "graceful": rp["graceful"], "path": [norm_label(x) for x in rp["labels"]]}]
-            res = hn_stream(work, binary, verdict, stats, rp["stream"], recs, 0, 0, None, {})
+            res = hn_stream(work, binary, verdict, stats, rp["stream"], recs, 0, 0, None, {}, alias=rp.get("alias", False))
             hn_account(verdict, stats, res)
         elif kind == "race":
             race_binary = v.build_harness(work, race=True, pkg=FAMILY)
